@@ -21,7 +21,7 @@ CASES_PER_FILE = 120
 CASE_FILE_BYTES = 150000
 CASE_TIMEOUT = 20
 TIERS = {"quick": {"n": 1800}, "thorough": {"n": 8000, "exhaustive": True}}   # + 21 952 swept cases
-RULE = ("[2 % of the cases are Spec validation: same lookups driven through functools.lru_cache(max_size)(on_miss), observations taken from it, so that Spec and model are compared with an independent standard-library LRU] histories of 1-50 (thorough: up to 120) public dict-API calls (item get/set/del, get, setdefault, update "
+RULE = ("[12 % of the cases use an on_miss that is not pure: it raises KeyError/ValueError/RuntimeError for some keys and/or re-enters the cache (assigns, deletes, pops, clears, often the key being looked up) before returning] [2 % of the cases are Spec validation: same lookups driven through functools.lru_cache(max_size)(on_miss), observations taken from it, so that Spec and model are compared with an independent standard-library LRU] histories of 1-50 (thorough: up to 120) public dict-API calls (item get/set/del, get, setdefault, update "
         "with dict/mapping/pairs/generator + kwargs, |=, pop, popitem, clear, copy, in, len, iteration, items, "
         "==/!= against dicts, caches and non-mappings, update(self, **kw), update(other cache)) on an LRI or LRU with max_size 1-4 (sometimes 5-8, thorough also 128), 3-7 "
         "keys, on_miss None or a recording function, optional constructor values; ops are spread over the original "
@@ -134,9 +134,68 @@ def gen_specval_case(rng, tier):
             "ops": [{"op": "getitem", "i": 0, "k": rng.choice(keys)} for _ in range(rng.randint(1, 40))]}
 
 
+def gen_impure_case(rng, tier):
+    """on_miss is not pure: for some keys it raises (KeyError / ValueError / RuntimeError) instead of returning,
+    and/or first re-enters the cache it serves (assigns / deletes / pops keys, often the very key being looked
+    up, or clears it).  Lookup-heavy histories on small caches."""
+    mx = rng.choice([1, 2, 2, 3, 3, 4])
+    nkeys = mx + rng.choice([1, 2, 3])
+    keys = rng.sample(range(len(KEYS)), min(nkeys, len(KEYS) - 2))
+    nvals = 12
+    on_miss = {"table": [[k, rng.randrange(1, nvals)] for k in rng.sample(keys, rng.randint(0, len(keys)))],
+               "default": rng.randrange(1, nvals)}
+    beh = []
+    for k in rng.sample(keys, rng.randint(1, len(keys))):
+        script = []
+        if rng.random() < 0.7:
+            for _ in range(rng.choice([1, 1, 2, 3])):
+                k2 = k if rng.random() < 0.5 else rng.choice(keys)
+                kind = rng.choice(["set", "set", "set", "del", "pop", "clear"])
+                if kind == "set":
+                    script.append({"op": "set", "k": k2, "v": rng.randrange(nvals)})
+                elif kind == "del":
+                    script.append({"op": "del", "k": k2})
+                elif kind == "pop":
+                    script.append({"op": "pop", "k": k2, "d": rng.randrange(nvals)})
+                else:
+                    script.append({"op": "clear"})
+        raises = rng.choice([None, None, "KeyError", "KeyError", "ValueError", "RuntimeError"]) \
+            if script else rng.choice(["KeyError", "KeyError", "ValueError", "RuntimeError"])
+        beh.append([k, {"script": script, "raise": raises}])
+    ops, ncaches = [], 1
+    nops = rng.randint(3, 40 if tier == "quick" else 80)
+    while len(ops) < nops:
+        name = rng.choices(["getitem", "get", "setdefault", "set", "del", "pop", "popitem", "copy", "in", "clear"],
+                           [30, 18, 16, 12, 6, 5, 3, 3, 3, 1])[0]
+        i = rng.randrange(ncaches)
+        k, v = rng.choice(keys), rng.randrange(nvals)
+        op = {"op": name, "i": i}
+        if name == "set":
+            op.update(k=k, v=v)
+        elif name in ("getitem", "in", "del"):
+            op.update(k=k)
+        elif name in ("get", "setdefault"):
+            op.update(k=k, d=rng.choice([0, v]), style=rng.choice(["pos", "kw", "omit"]))
+        elif name == "pop":
+            op.update(k=k, d=rng.choice([None, v]))
+        elif name == "copy":
+            if ncaches >= 2:
+                continue
+            ncaches += 1
+            op.update(how=rng.randrange(2))
+        ops.append(op)
+    for ci in range(ncaches):
+        for t in range(mx):
+            ops.append({"op": "set", "i": ci, "k": FRESH0 + 8 * ci + t, "v": rng.randrange(nvals)})
+    return {"cls": rng.choice(["LRI", "LRU"]), "max": mx, "on_miss": on_miss, "beh": beh, "init": [],
+            "init_kind": "none", "full": "all", "ops": ops}
+
+
 def gen_case(rng, tier):
     if rng.random() < 0.015:
         return gen_ctor_case(rng)
+    if rng.random() < 0.12:
+        return gen_impure_case(rng, tier)
     if rng.random() < 0.02:
         return gen_specval_case(rng, tier)
     big = tier == "thorough" and rng.random() < 0.015
@@ -372,8 +431,30 @@ def run_impl(case):
         table = {key(k): v for k, v in case["on_miss"]["table"]}
         dflt = case["on_miss"]["default"]
 
+        beh = {key(k): b for k, b in case.get("beh", [])}
+        current = []                       # the cache the running operation was applied to
+
         def on_miss(k):
             calls.append(ktok(k))
+            b = beh.get(k)
+            if b is not None:
+                cur = current[0]
+                for sop in b["script"]:    # re-entrant use of the cache by on_miss itself
+                    try:
+                        if sop["op"] == "set":
+                            cur[key(sop["k"])] = val(sop["v"])
+                        elif sop["op"] == "del":
+                            del cur[key(sop["k"])]
+                        elif sop["op"] == "pop":
+                            cur.pop(key(sop["k"]), val(sop["d"]))
+                        elif sop["op"] == "clear":
+                            cur.clear()
+                        else:
+                            raise AssertionError(sop)
+                    except KeyError:
+                        pass
+                if b["raise"] is not None:
+                    raise {"KeyError": KeyError, "ValueError": ValueError, "RuntimeError": RuntimeError}[b["raise"]](k)
             return val(table.get(k, dflt))
     if case.get("on_miss_bad"):
         on_miss = rng_free_noncallable(case)
@@ -390,6 +471,8 @@ def run_impl(case):
         name = op["op"]
         i = resolve(op["i"], len(caches))
         c = caches[i]
+        if case["on_miss"] is not None:
+            current[:] = [c]
         del calls[:]
         extra = None
         try:
@@ -488,6 +571,10 @@ def run_impl(case):
             out = ["ok"] + out
         except KeyError:
             out = ["raise", "KeyError"]
+        except (ValueError, RuntimeError) as e:
+            if not case.get("beh"):
+                raise                       # only an impure on_miss may raise these
+            out = ["raise", type(e).__name__]
         full = case["full"] == "all" or n % 7 == 0 or n >= len(case["ops"]) - 3 or name in ("copy", "clear")
         o = {"out": out, "len": len(c), "hit": c.hit_count, "miss": c.miss_count, "soft": c.soft_miss_count,
              "calls": list(calls), "items": [[ktok(k), vtok(v)] for k, v in c.items()] if full else None}
@@ -546,6 +633,18 @@ def _op1(op, o):
     raise ValueError(n)
 
 
+def _script_op(o):
+    if o["op"] == "set":
+        return "SetItem %s %s" % (cnat(o["k"]), cnat(o["v"]))
+    if o["op"] == "del":
+        return "DelItem %s" % cnat(o["k"])
+    if o["op"] == "pop":
+        return "Pop %s (Some %s)" % (cnat(o["k"]), cnat(o["d"]))
+    if o["op"] == "clear":
+        return "Clear"
+    raise ValueError(o)
+
+
 def _out(out):
     if out[0] == "raise":
         return "(Raise %s)" % out[1]
@@ -598,8 +697,11 @@ def to_coq(case, obs):
     init = case["init"]
     if case["init_kind"] in ("dict", "mapping"):
         assert len({k for k, _ in init}) == len(init)
-    return "mkCase %s %s %s %s %s %s %s" % (case["cls"], cnat(max(0, case["max"])), om_t,
-                                            cbool(not case.get("on_miss_bad")), ctor, _kv(init), clist(steps))
+    beh = clist("(%s, (%s, %s))" % (cnat(k), clist(_script_op(o) for o in b["script"]),
+                                    "None" if b["raise"] is None else "(Some %s)" % b["raise"])
+                for k, b in case.get("beh", []))
+    return "mkCase %s %s %s %s %s %s %s %s" % (case["cls"], cnat(max(0, case["max"])), om_t,
+                                               cbool(not case.get("on_miss_bad")), ctor, beh, _kv(init), clist(steps))
 
 
 # ---------------------------------------------------------------------------
@@ -660,6 +762,12 @@ def distribution(d, case, obs):
         d[group][str(k)] = d[group].get(str(k), 0) + by
     if case.get("ref"):
         inc("spec_validation", case["ref"])
+    if case.get("beh"):
+        inc("impure_on_miss", "histories")
+        for _, b in case["beh"]:
+            inc("impure_on_miss", "raising keys: %s" % b["raise"] if b["raise"] else "returning keys")
+            if b["script"]:
+                inc("impure_on_miss", "re-entrant keys")
     if case.get("sweep"):
         inc("exhaustive_sweep", "depth %d, 14 call shapes, 2 keys, both classes, max_size 1-2, on_miss None/f" % case["sweep"])
     if not case["ops"] and (case["max"] <= 0 or case.get("on_miss_bad")):
